@@ -45,7 +45,10 @@ pub fn mutate(v: &mut Value, rng: &mut rand_chacha::ChaCha8Rng, depth: u32) {
                 (3, Value::Array(a)) => { a.push(boundary_int(rng)); }
                 (4, Value::Bytes(b)) => { let l = rng.gen_range(0..71); b.resize(l, 0x5a); }
                 (5, Value::Bytes(b)) => { if !b.is_empty() { let i = rng.gen_range(0..b.len()); b[i] ^= 0xff; } }
-                (6, Value::Text(t)) => { *t = ["", "1.0", "org.iso.18013.5.1.mDL", "age_over_", "\u{0}", "é".repeat(200).as_str()][rng.gen_range(0..6)].to_string(); }
+                (6, Value::Text(t)) => {
+                    // date-looking texts get the RFC 3339 range edges, the others assorted strings
+                    if t.len() >= 10 && t.as_bytes()[4] == b'-' { *t = BOUNDARY_DATES[rng.gen_range(0..BOUNDARY_DATES.len())].to_string(); }
+                    else { *t = ["", "1.0", "org.iso.18013.5.1.mDL", "age_over_", "\u{0}", "é".repeat(200).as_str()][rng.gen_range(0..6)].to_string(); } }
                 (7, Value::Integer(_)) => { *v = boundary_int(rng); }
                 (8, _) => { *v = boundary_int(rng); }
                 (9, _) => { *v = [Value::Null, Value::Bool(true), Value::Text("x".into()), Value::Bytes(vec![]), Value::Array(vec![]), Value::Map(vec![]), Value::Float(1.5)][rng.gen_range(0..7)].clone(); }
@@ -54,6 +57,23 @@ pub fn mutate(v: &mut Value, rng: &mut rand_chacha::ChaCha8Rng, depth: u32) {
                 _ => { *v = Value::Bytes((0..rng.gen_range(0..71)).map(|_| rng.gen()).collect()); }
             }
         }
+    }
+}
+
+pub const BOUNDARY_DATES: [&str; 8] = ["9999-12-31T23:59:59-01:00", "0000-01-01T00:00:00+01:00", "9999-12-31T23:59:60-00:01", "0000-01-01T00:00:00Z", "9999-12-31T23:59:59Z",
+    "2016-12-31T23:59:60Z", "2020-01-01T00:00:00.999999999999999999Z", "2020-02-30T00:00:00Z"];
+
+/// replace every tag-0 date-time below `v` by `date`
+pub fn set_dates(v: &mut Value, date: &str) {
+    match v {
+        Value::Tag(0, inner) => { **inner = Value::Text(date.to_string()); }
+        Value::Tag(24, inner) => { if let Value::Bytes(b) = &mut **inner { if let Ok(mut iv) = cbor::from_slice::<Value>(b) { set_dates(&mut iv, date); *b = to_bytes(&iv); } } }
+        Value::Tag(_, inner) => set_dates(inner, date),
+        Value::Array(a) => { for x in a { set_dates(x, date) } }
+        Value::Map(m) => { for (_, x) in m { set_dates(x, date) } }
+        // the issuerAuth payload is a bstr holding #6.24(bstr MSO)
+        Value::Bytes(b) => { if b.len() > 30 { if let Ok(mut iv) = cbor::from_slice::<Value>(b) { if matches!(iv, Value::Tag(24, _)) { set_dates(&mut iv, date); *b = to_bytes(&iv); } } } }
+        _ => {}
     }
 }
 
@@ -186,6 +206,11 @@ pub fn run(ctx: &mut Ctx) {
         ctx.emit.line("corr", "model:device-key-in-mso", format!("resp.outcome {f}"), real, serde_json::json!({"key": name, "msg_hex": hex::encode(to_bytes(&v))}));
         report(ctx, "handle_response", "hostile-device-key", r.is_err(), secs, &to_bytes(&v), r.as_ref().err().map(|s| s.as_str()).unwrap_or(""));
     }
+    for date in BOUNDARY_DATES {
+        let mut v = live.resp.clone(); set_dates(&mut v, date);
+        let t = Instant::now(); let r = live.deliver(&v); let secs = t.elapsed().as_secs_f64();
+        report(ctx, "handle_response", "boundary-date-in-mso", r.is_err(), secs, date.as_bytes(), r.as_ref().err().map(|s| s.as_str()).unwrap_or(""));
+    }
     for _ in 0..(500 * budget) {
         let mut v = live.resp.clone(); for _ in 0..rng.gen_range(1..4) { mutate(&mut v, &mut rng, 0); }
         let t = Instant::now(); let r = live.deliver(&v); let secs = t.elapsed().as_secs_f64();
@@ -205,12 +230,18 @@ pub fn run(ctx: &mut Ctx) {
         let mut v = sess::b64_to_value(s); mutate(&mut v, &mut rng, 0);
         let enc = sess::value_to_b64(&v);
         if which == "device" {
-            let (r, secs) = timed(move || match device::SessionManager::parse(enc) { Ok(mut d) => { let _ = d.handle_request(&[0xa0]); d.prepare_response(&vec![], Default::default()); let _ = d.submit_next_signature(vec![1]); d.retrieve_response().is_some() } Err(_) => false });
+            let (r, secs) = timed(move || match device::SessionManager::parse(enc) { Ok(mut d) => { let _ = d.handle_request(&[0xa0]); d.prepare_response(&vec![], Default::default()); let _ = d.submit_next_signature(vec![1]); let _ = d.stringify(); d.retrieve_response().is_some() } Err(_) => false });
             report(ctx, "parse:device::SessionManager", "mutated-state", r.is_err(), secs, &to_bytes(&v), r.as_ref().err().map(|s| s.as_str()).unwrap_or(""));
         } else {
-            let (r, secs) = timed(move || match reader::SessionManager::parse(enc) { Ok(mut d) => { let _ = d.new_request(sess::simple_namespaces(&["a"])); d.handle_response(&[0xa0]).errors.len() > 0 } Err(_) => false });
+            let (r, secs) = timed(move || match reader::SessionManager::parse(enc) { Ok(mut d) => { let _ = d.new_request(sess::simple_namespaces(&["a"])); let _ = d.stringify(); d.handle_response(&[0xa0]).errors.len() > 0 } Err(_) => false });
             report(ctx, "parse:reader::SessionManager", "mutated-state", r.is_err(), secs, &to_bytes(&v), r.as_ref().err().map(|s| s.as_str()).unwrap_or(""));
         }
+    }
+    for date in BOUNDARY_DATES {
+        let mut v = sess::b64_to_value(&dev_s); set_dates(&mut v, date);
+        let enc = sess::value_to_b64(&v);
+        let (r, secs) = timed(move || match device::SessionManager::parse(enc) { Ok(mut d) => { let _ = d.handle_request(&[0xa0]); d.stringify().is_ok() } Err(_) => false });
+        report(ctx, "parse+stringify:device::SessionManager", "boundary-date-in-stored-document", r.is_err(), secs, date.as_bytes(), r.as_ref().err().map(|s| s.as_str()).unwrap_or(""));
     }
     for ctr in [u32::MAX - 1, u32::MAX] {
         let mut v = sess::b64_to_value(&rdr_s); sess::vset(&mut v, "reader_message_counter", iv(ctr as i128)); sess::vset(&mut v, "device_message_counter", iv(ctr as i128));
